@@ -55,6 +55,8 @@ type k2Result struct {
 	GenErrors   []string
 	GenMismatch []map[string]any // generation outcome differs between implementation and model
 	GenCompared int
+	// converters whose whole plan passes PlanCheck.checkProg (the hypothesis of the composite theorem of C02)
+	InFragment, FragmentAsked int
 }
 
 // runK2 generates, compiles and executes the batches; for every call it returns the implementation's and the model's answer.
@@ -244,6 +246,15 @@ func runK2(e *env, name string, batches []*k2Batch) (*k2Result, error) {
 					continue
 				}
 				for j, rnode := range a.Args() {
+					if rnode.Head() == "fragment" {
+						mu.Lock()
+						res.FragmentAsked++
+						if len(rnode.L) == 2 && rnode.L[1].S == "true" {
+							res.InFragment++
+						}
+						mu.Unlock()
+						continue
+					}
 					if j < len(reqCalls[i]) && len(rnode.L) >= 2 {
 						reqCalls[i][j].Model = rnode.L[1].String()
 						if len(rnode.L) == 3 {
